@@ -18,8 +18,8 @@ CHECKS = {
             "DESIGN.md §4 C02", "E1-stateless"),
     "C03": ("exploration",
             "bounded exhaustive enumeration of (access lists x protocol x client address x ClientID x name) through the real pre-request hook and pipeline, against a set-theoretic access model; loopback conformance of the drop contract",
-            "Every disjoint allowed/disallowed pair of subsets (size <=2, thorough <=3) of 10 list items x 6 protocols x 9 addresses (in/out of each CIDR, zoned, 4-in-6) x 4 ClientID labels, the lists being the start-up configuration, set through POST /control/access/set, or set that way and followed by Server.Reconfigure; 8 blocked-host pattern sets x names x qtypes x protocols. Excluded => dropped (UDP/DNSCrypt) or REFUSED echoing the request, with no upstream call, log entry or statistics update; admitted => served. DoH requests through the real HTTP entry point: 5 list configurations x 4 trusted-proxy sets x 5 peers x proxy headers (4 kinds x 3 addresses): the client is the peer, or the header address iff the peer is a trusted proxy. The plain-error=silence contract of dnsproxy is validated by real UDP/TCP exchanges on 127.0.0.1.",
-            "blocked-host matching delegated to urlfilter; 4-in-6 addresses whose two readings differ are not judged; only lower-case ClientID list entries.",
+            "Every disjoint allowed/disallowed pair of subsets (size <=2, thorough <=3) of 12 list items (incl. an upper-case ClientID and a link-local address without zone) x 6 protocols x 9 addresses (in/out of each CIDR, zoned, 4-in-6) x 4 ClientID labels, the lists being the start-up configuration, set through POST /control/access/set, or set that way and followed by Server.Reconfigure; 8 blocked-host pattern sets x names x qtypes x protocols. Excluded => dropped (UDP/DNSCrypt) or REFUSED echoing the request, with no upstream call, log entry or statistics update; admitted => served. DoH requests through the real HTTP entry point: 5 list configurations x 4 trusted-proxy sets x 5 peers x proxy headers (4 kinds x 3 addresses): the client is the peer, or the header address iff the peer is a trusted proxy. The plain-error=silence contract of dnsproxy is validated by real UDP/TCP exchanges on 127.0.0.1.",
+            "blocked-host matching delegated to urlfilter; 4-in-6 addresses whose two readings differ are not judged.",
             "DESIGN.md §4 C03", "E1-stateless"),
     "C04": ("model_checking",
             "explicit-state BFS over operation histories executed on the real client.Storage, implementation-dump dedup, list-of-clients reference model checked on every transition",
